@@ -51,13 +51,16 @@ def h09_timeout_cleanup(S):
     S.check("no-stall", out["returned"])
 
 
-def h09(S, n_jobs=2, queues=1, max_limit=3, dmax_us=3000, late=False, backend="mem", late_max_us=None):
+def h09(S, n_jobs=2, queues=1, max_limit=3, dmax_us=3000, late=False, backend="mem", late_max_us=None, fixed_d_us=None):
     from repid import Job, Router, Worker
     from repid.converter import BasicConverter
 
     limit = S.int("tasks_limit", 1, max_limit)
     dmax = Fraction(dmax_us, 10**6)
-    d = [S.real(f"d{i}", 0, dmax, lo_strict=True) for i in range(n_jobs)]
+    if late and late_max_us is not None and fixed_d_us:
+        d = [Fraction(fixed_d_us, 10**6)] * n_jobs      # concrete durations: the symbolic part is the burst's polling phase
+    else:
+        d = [S.real(f"d{i}", 0, dmax, lo_strict=True) for i in range(n_jobs)]
     fails = [S.bool(f"fail{i}") for i in range(n_jobs)]
     burst = late and late_max_us is not None
     if burst:
@@ -95,7 +98,18 @@ def h09(S, n_jobs=2, queues=1, max_limit=3, dmax_us=3000, late=False, backend="m
             await Job("job_" + qn, queue=qn, args={"i": i}, id_=f"m{i}", _connection=w.conn).enqueue()
         worker = Worker(routers=[r], handle_signals=[], _connection=w.conn, graceful_shutdown_time=1.0,
                         messages_limit=n_jobs, tasks_limit=limit)
-        if late:
+        if burst:
+            async def producer():
+                await asyncio.sleep(Fraction(1, 2) + phase)
+                for i in range(n_jobs - 1):
+                    qn = qnames[i % queues]
+                    await Job("job_" + qn, queue=qn, args={"i": i}, id_=f"m{i}", _connection=w.conn).enqueue()
+                await asyncio.sleep(arrive)
+                i = n_jobs - 1
+                qn = qnames[i % queues]
+                await Job("job_" + qn, queue=qn, args={"i": i}, id_=f"m{i}", _connection=w.conn).enqueue()
+            asyncio.create_task(producer())
+        elif late:
             async def producer():
                 await asyncio.sleep(arrive)
                 i = n_jobs - 1
@@ -175,9 +189,9 @@ HARNESSES = [
         functions=["_processor.py:_Processor._actor_run"], covers=["timeouts-with-cleanup"]),
     Harness(
         name="H09-redis-late-arrival", scenario=h09, workers=16, budget_s=900,
-        params={"quick": {"n_jobs": 3, "queues": 1, "dmax_us": 40000, "max_limit": 1, "backend": "redis", "late": True, "late_max_us": 2500000},
+        params={"quick": {"n_jobs": 3, "queues": 1, "dmax_us": 150000, "max_limit": 1, "backend": "redis", "late": True, "late_max_us": 2500000, "fixed_d_us": 150000},
                 "thorough": {"n_jobs": 3, "queues": 1, "dmax_us": 250000, "max_limit": 2, "backend": "redis", "late": True, "late_max_us": 2500000}},
-        bounds={"broker": "Redis consumer on the fake server", "jobs": "worker idle first; a burst of 2 at 0.5 s + any real phase in [0, 0.1 s]; a third 0.3 s, 1 s or 2.1 s later", "durations": "(0, 40 ms] quick / (0, 250 ms] thorough", "tasks_limit": "1 quick / [1,2] thorough"},
+        bounds={"broker": "Redis consumer on the fake server", "jobs": "worker idle first; a burst of 2 at 0.5 s + any real phase in [0, 0.1 s]; a third 0.3 s, 1 s or 2.1 s later", "durations": "150 ms each (quick) / any real in (0, 250 ms] (thorough)", "tasks_limit": "1 quick / [1,2] thorough"},
         covers=["run-returned"], stubs=["fake Redis server"]),
     Harness(
         name="H09-late-arrival", scenario=h09, workers=16, budget_s=900, tiers=("thorough",),
